@@ -5,6 +5,7 @@ package waddrmgr
 import (
 	"github.com/btcsuite/btcd/btcec/v2"
 	"github.com/btcsuite/btcd/btcutil"
+	"github.com/btcsuite/btcd/btcutil/hdkeychain"
 	"github.com/btcsuite/btcwallet/walletdb"
 
 	"verif/verifrt"
@@ -99,7 +100,36 @@ func zzNewC05World(state int) *zzC05World {
 		}
 		verifrt.Reach("imports")
 	}
+	if state == 4 {
+		// an imported extended-public-key (watch-only) account inside the
+		// seeded manager, loaded into the account cache by issuing an address
+		acctKey, err := zzImportedAccountKey(w.root)
+		zzMust(err)
+		zzMust(w.update(func(ns walletdb.ReadWriteBucket) error {
+			acct, err := sm.NewAccountWatchingOnly(ns, "somebody", acctKey, 0x11223344, nil)
+			if err != nil {
+				return err
+			}
+			_, err = sm.NextExternalAddresses(ns, acct, 1)
+			return err
+		}))
+		verifrt.Reach("watch-only-account-loaded")
+	}
 	return w
+}
+
+// zzImportedAccountKey: the public account key m/84'/0'/7' of the same seed,
+// handed to the manager as somebody else's xpub.
+func zzImportedAccountKey(root *hdkeychain.ExtendedKey) (*hdkeychain.ExtendedKey, error) {
+	k := root
+	for _, i := range []uint32{84 + hdkeychain.HardenedKeyStart, hdkeychain.HardenedKeyStart, 7 + hdkeychain.HardenedKeyStart} {
+		c, err := k.DeriveNonStandard(i)
+		if err != nil {
+			return nil, err
+		}
+		k = c
+	}
+	return k.Neuter()
 }
 
 // wiped: (a) after Lock every clear-text secret in memory is zero.
@@ -262,6 +292,28 @@ func zzC05Guess(state int) {
 
 func ZzC05GuessFresh()   { zzC05Guess(0) }
 func ZzC05GuessImports() { zzC05Guess(2) }
+func ZzC05GuessWatchOnlyAccount() { zzC05Guess(4) }
+func ZzC05LockWatchOnlyAccount()  { zzC05Lock(4) }
+
+// ZzC05FailedUnlock: an Unlock that fails half way (here: the account row's
+// encrypted private key is damaged, so the step after the master and crypto
+// keys were already decrypted fails) must leave the manager locked AND wiped.
+func ZzC05FailedUnlock() {
+	w := zzNewC05World(1)
+	zzMust(w.mgr.Lock())
+	ai := w.sm.acctInfo[0]
+	verifrt.Assert(ai != nil && len(ai.acctKeyEncrypted) > 30, "c05-setup-account-cached")
+	ai.acctKeyEncrypted[30] ^= 0x40
+	var err error
+	zzMust(w.view(func(ns walletdb.ReadBucket) error {
+		err = w.mgr.Unlock(ns, zzPrvPass)
+		return nil
+	}))
+	verifrt.Assert(err != nil, "c05-damaged-account-key-fails-unlock")
+	w.wiped("c05-failed-unlock-wipe")
+	w.gated("c05-failed-unlock-gate")
+	verifrt.Reach("c05-end")
+}
 
 // ZzC05Change: changing the private (or public) passphrase makes the new one
 // work and the old one fail, immediately and after restart; a wrong old
@@ -293,10 +345,22 @@ func ZzC05Change() {
 	}
 	check := func(label string) {
 		if private {
+			// an Unlock on a manager that is still unlocked takes a
+			// different path (cached passphrase hash): try it both without
+			// and with a Lock in between
+			mode := 0
 			if !w.mgr.IsLocked() {
-				zzMust(w.mgr.Lock())
+				mode = verifrt.Choice(3, "recheck-mode")
+				if mode == 0 {
+					zzMust(w.mgr.Lock())
+				} else {
+					verifrt.Reach("unlock-while-unlocked")
+				}
 			}
 			zzMust(w.view(func(ns walletdb.ReadBucket) error {
+				if mode == 1 {
+					verifrt.Assert(w.mgr.Unlock(ns, cur) == nil && !w.mgr.IsLocked(), label+"-current-private-passphrase-accepted-while-unlocked")
+				}
 				verifrt.Assert(w.mgr.Unlock(ns, other) != nil && w.mgr.IsLocked(), label+"-other-private-passphrase-fails")
 				verifrt.Assert(w.mgr.Unlock(ns, cur) == nil && !w.mgr.IsLocked(), label+"-current-private-passphrase-unlocks")
 				return nil
